@@ -41,6 +41,10 @@ def make_inputs(ctx, n_valid, n_mut):
     for cat, t in [("e", "a + b * c"), ("e", "f(x, y)[2].m->n++"), ("s", "if (a) b; else { c; }"), ("s", "for (int i = 0; i < n; ++i) x += i;"), ("d", "int x = 1, *y;"),
                    ("d", "struct S { int a; } s;"), ("e", "a +"), ("s", "while ("), ("d", "int (")]:
         cases.append(("category", 2, cat, t))
+    # the syntactic corpus shared with C03/C04 (every node kind, trailing asm/attribute combinations, adjacent literals, builtins)
+    from gen.snippets import corpus
+    for cat, t in corpus():
+        cases.append(("corpus", 2, cat, t))
     return cases
 
 
